@@ -1401,6 +1401,106 @@ example : SoftFloat.mul f64 0x7FEFFFFFFFFFFFFF 0x4000000000000000 = 0x7FF0000000
     decode f64 0x7FEFFFFFFFFFFFFF = .fin false (2 ^ 53 - 1) 971 ∧ decode f64 0x4000000000000000 = .fin false (2 ^ 52) (-51) := by
   decide
 
+/-- **`-` is correctly rounded too**: for every right operand that is not a NaN, `a - b` IS `a + (−b)`, and `−b` only
+    flips the decoded sign (`float_add_correctly_rounded` applies with `t` negated); in particular `x − x = +0` for
+    every finite `x` — the round-to-nearest sign of an exact zero difference -/
+theorem float_sub_correctly_rounded (f : Fmt) (a b : Nat) :
+    (decode f b ≠ .nan → SoftFloat.sub f a b = SoftFloat.add f a (SoftFloat.neg f b)) ∧
+    (decode f b = .nan → SoftFloat.sub f a b = f.nanBits) ∧
+    decode f (SoftFloat.neg f b) = (match decode f b with
+      | .nan => .nan | .inf s => .inf (!s) | .fin s m e => .fin (!s) m e) ∧
+    (∀ s m e, decode f a = .fin s m e → SoftFloat.sub f a a = 0) := by
+  refine ⟨sub_eq_add_neg f a b, ?_, decode_neg f b, fun s m e h => sub_self f a s m e h⟩
+  intro h
+  unfold SoftFloat.sub
+  by_cases hn : isNaN f b = true
+  · simp [hn]
+  · have hn' : isNaN f b = false := by simpa using hn
+    have h2 : decode f (SoftFloat.neg f b) = .nan := by rw [decode_neg, h]
+    simp [hn', SoftFloat.add, h2]
+    cases decode f a <;> rfl
+
+/-- **the special values of `+ * /`** by decoded class, one finite case split: NaN propagates; `Inf + Inf` is that
+    infinity for equal signs and NaN for opposite ones (so `Inf − Inf = NaN` through `float_sub_correctly_rounded`);
+    `Inf ± finite` is the infinity; `Inf · Inf`, `Inf · finite≠0` are infinities of the product sign, `0 · Inf` is NaN;
+    `Inf / Inf` is NaN, `Inf / finite` an infinity, `finite / Inf` a zero of the quotient sign; plain IEEE
+    `finite≠0 / 0 = ±Inf`, `0 / 0 = NaN` — which the evaluator never reaches: its own `r == 0` test answers first
+    (`float_div_by_zero_configured`, contrast `float_zero_test_is_needed`) -/
+theorem float_special_values (f : Fmt) (a b : Nat) :
+    (decode f a = .nan → SoftFloat.add f a b = f.nanBits ∧ SoftFloat.mul f a b = f.nanBits ∧ SoftFloat.div f a b = f.nanBits) ∧
+    (decode f b = .nan → SoftFloat.add f a b = f.nanBits ∧ SoftFloat.mul f a b = f.nanBits ∧ SoftFloat.div f a b = f.nanBits) ∧
+    (∀ s t, decode f a = .inf s → decode f b = .inf t →
+      SoftFloat.add f a b = (if s == t then a else f.nanBits) ∧ SoftFloat.mul f a b = withSign f (s != t) f.infBits ∧
+      SoftFloat.div f a b = f.nanBits) ∧
+    (∀ s t k g, decode f a = .inf s → decode f b = .fin t k g →
+      SoftFloat.add f a b = a ∧ SoftFloat.mul f a b = (if k = 0 then f.nanBits else withSign f (s != t) f.infBits) ∧
+      SoftFloat.div f a b = withSign f (s != t) f.infBits) ∧
+    (∀ s t m e, decode f a = .fin s m e → decode f b = .inf t →
+      SoftFloat.add f a b = b ∧ SoftFloat.mul f a b = (if m = 0 then f.nanBits else withSign f (s != t) f.infBits) ∧
+      SoftFloat.div f a b = withSign f (s != t) 0) ∧
+    (∀ s t m e g, decode f a = .fin s m e → decode f b = .fin t 0 g →
+      SoftFloat.div f a b = (if m = 0 then f.nanBits else withSign f (s != t) f.infBits)) :=
+  special_values f a b
+
+/-- **`floor` / `ceil` / `round` of the evaluators** (`math.Floor/Ceil/Round`) on a finite value `± m·2^e`: an integral
+    value or a zero is returned unchanged; otherwise (`|x| = m / 2^(-e)`, not integral in general) the result is the
+    float of the INTEGER the mathematical function gives — `ofRat s N 1`, the signed zero when `N = 0` — with
+    floor: `N ≤ |x| < N+1` for `x > 0`, `N−1 < |x| ≤ N` for `x < 0`; ceil the other way round; round:
+    `N ≤ |x| + 1/2 < N + 1` for BOTH signs, i.e. halves go away from zero (own-c09-38, round-half-even, is the
+    contrast the streams catch) -/
+theorem float_integral_functions (f : Fmt) (b : Nat) (s : Bool) (m : Nat) (e : Int) (hb : decode f b = .fin s m e) :
+    ((0 ≤ e ∨ m = 0) → SoftFloat.floor f b = b ∧ SoftFloat.ceil f b = b ∧ SoftFloat.round f b = b) ∧
+    (¬ (0 ≤ e ∨ m = 0) →
+      ∃ Nf Nc Nr : Nat,
+        SoftFloat.floor f b = (if Nf = 0 then withSign f s 0 else ofRat f s Nf 1) ∧
+        SoftFloat.ceil f b = (if Nc = 0 then withSign f s 0 else ofRat f s Nc 1) ∧
+        SoftFloat.round f b = (if Nr = 0 then withSign f s 0 else ofRat f s Nr 1) ∧
+        (s = false → Nf * 2 ^ (-e).toNat ≤ m ∧ m < (Nf + 1) * 2 ^ (-e).toNat) ∧
+        (s = true → m ≤ Nf * 2 ^ (-e).toNat ∧ Nf * 2 ^ (-e).toNat < m + 2 ^ (-e).toNat) ∧
+        (s = true → Nc * 2 ^ (-e).toNat ≤ m ∧ m < (Nc + 1) * 2 ^ (-e).toNat) ∧
+        (s = false → m ≤ Nc * 2 ^ (-e).toNat ∧ Nc * 2 ^ (-e).toNat < m + 2 ^ (-e).toNat) ∧
+        (2 * Nr * 2 ^ (-e).toNat ≤ 2 * m + 2 ^ (-e).toNat ∧ 2 * m + 2 ^ (-e).toNat < (2 * Nr + 2) * 2 ^ (-e).toNat) ∧
+        (Nf ≤ m / 2 ^ (-e).toNat + 1 ∧ Nc ≤ m / 2 ^ (-e).toNat + 1 ∧ Nr ≤ m / 2 ^ (-e).toNat + 1)) :=
+  integral_functions f b s m e hb
+
+/-- … and those results are EXACTLY the integers: an integer `N` chosen for a non-integral finite value of the format
+    (`N ≤ ⌊|x|⌋ + 1`, the last conjunct above) is below `2^(mb+1)`, and the float `ofRat neg N 1` of such an integer
+    decodes to `± q·2^E` with `E ≤ 0`, `q = N·2^(-E)` — the value `± N`, no rounding and no overflow — in every format
+    whose exponent range holds its integers (binary64 and binary32: the `example` below) -/
+theorem float_integer_results_exact (f : Fmt) (heb : 1 ≤ f.eb) (hemin : f.emin ≤ 0)
+    (hfmt : f.bias + f.mb + 1 < f.emaxField) (b : Nat) (s : Bool) (m : Nat) (e : Int)
+    (hb : decode f b = .fin s m e) (he : e < 0) (neg : Bool) (N : Nat) (hN0 : N ≠ 0)
+    (hN : N ≤ m / 2 ^ (-e).toNat + 1) :
+    ∃ (q : Nat) (E : Int), decode f (ofRat f neg N 1) = .fin neg q E ∧ E ≤ 0 ∧ q = N * 2 ^ (-E).toNat :=
+  ofRat_int_exact f heb neg N hN0 (integral_pick_small f b s m e hb he N hN) hemin hfmt
+
+example : (1 ≤ f64.eb ∧ f64.emin ≤ 0 ∧ f64.bias + f64.mb + 1 < f64.emaxField) ∧
+    (1 ≤ f32.eb ∧ f32.emin ≤ 0 ∧ f32.bias + f32.mb + 1 < f32.emaxField) := by decide
+
+/-- NOT proved — `math.Mod`: for finite `a = ± m·2^e` and non-zero finite `b = ± k·2^g`, `fmod` returns the float whose
+    value is EXACTLY the remainder of the truncated division of the decoded values, with the sign of `a` (no rounding
+    is involved: the remainder is a multiple of `2^min(e,g)` below `|b|`).  What is missing: that `ofScaled s R x` of
+    `R < k·2^(g-x)` is exact, i.e. that the remainder fits the mantissa at the exponent `roundMag` chooses (a bound on
+    `R.log2` against `k`'s, then `rne_exact`); the definition is `SoftFloat.fmod`, tied by the flval stream -/
+def float_fmod_Statement : Prop :=
+  ∀ (f : Fmt) (a b : Nat) (s t : Bool) (m k : Nat) (e g : Int), decode f a = .fin s m e → decode f b = .fin t k g →
+    k ≠ 0 → ∃ (x : Int) (R : Nat), (x = e ∨ x = g) ∧ x ≤ e ∧ x ≤ g ∧
+      R = (m * 2 ^ (e - x).toNat) % (k * 2 ^ (g - x).toNat) ∧
+      (R = 0 → SoftFloat.fmod f a b = withSign f s 0) ∧
+      (R ≠ 0 → ∃ q E, decode f (SoftFloat.fmod f a b) = .fin s q E ∧ (q : Int) * 2 ^ (E - x).toNat = R * 2 ^ (x - E).toNat)
+
+/-! the theorems above can fail and their hypotheses are met: round(2.5) = 3, round(−2.5) = −3 (away from zero),
+    floor(−0.5) = −1, ceil(−0.5) = −0, Inf − Inf = NaN, 0 · Inf = NaN, 1.5 − 1.5 = +0 -/
+set_option maxRecDepth 8000 in
+example : SoftFloat.round f64 0x4004000000000000 = 0x4008000000000000 ∧
+    SoftFloat.round f64 0xC004000000000000 = 0xC008000000000000 ∧
+    SoftFloat.floor f64 0xBFE0000000000000 = 0xBFF0000000000000 ∧
+    SoftFloat.ceil f64 0xBFE0000000000000 = 0x8000000000000000 ∧
+    SoftFloat.sub f64 0x7FF0000000000000 0x7FF0000000000000 = f64.nanBits ∧
+    SoftFloat.mul f64 0 0x7FF0000000000000 = f64.nanBits ∧
+    SoftFloat.sub f64 0x3FF8000000000000 0x3FF8000000000000 = 0 ∧
+    decode f64 0x4004000000000000 = .fin false 0x14000000000000 (-51) := by decide
+
 end FloatRounding
 
 /-! ## literals with an exponent inside the FIXED evaluator (`FixedFrom` → `f64.FromString` → `strconv.ParseFloat`, then
